@@ -3,6 +3,7 @@
 mitmproxy/net/http/cookies.py: Set-Cookie parsing, is_expired, format_cookie_header)."""
 import ipaddress, itertools
 from common.check import PropertyCheck, hx, unhx
+from mitmproxy import http
 from mitmproxy.addons import stickycookie
 from mitmproxy.test import taddons, tflow, tutils
 
@@ -14,7 +15,7 @@ DOMAINS = [None, None, "example.com", ".example.com", ".Example.COM", "sub.examp
 PORTS = [80, 8080, 443]
 CPATHS = [None, None, "/", "/foo", "/foo/", "/foo/bar", "foo", "", "/foobar"]
 RPATHS = ["/", "/foo", "/foo/", "/foobar", "/foo/bar", "/foo?x=1", "/foo?x=/foo/", "/fo", "/other", "/foo/bar/baz", "*", "",
-          "/foo/bar?q", "/foobar/"]
+          "/foo/bar?q", "/foobar/", "/foo%2Fbar", "/%66oo/bar", "/foo;p=/foo/", "/foo%3Fx", "//foo", "/foo/../other"]
 NAMES = ["a", "b", "sid"]
 EXPIRY = [  # (attribute pair or None, expired by construction)
     (None, 0), (None, 0), (["Max-Age", "3600"], 0), (["Expires", "Fri, 01 Jan 2100 00:00:00 GMT"], 0),
@@ -70,8 +71,10 @@ class Check(PropertyCheck):
     technique = "Lean 4 proof (history invariants, impl-vs-RFC matchers) + differential model-vs-code correspondence"
     rule = ("a case is a history (<=40 events) of responses (1-3 Set-Cookie headers: host-only / Domain with and without "
             "leading dot, upper case, trailing dot, foreign, inner-substring hosts; Path; Max-Age/Expires fresh and expired; "
-            "duplicate attributes) and requests (related/unrelated hosts, ports, paths with and without query, filter "
-            "matching or not), or a single (host, domain) / (request path, cookie path) pair from the exhaustive universe; "
+            "duplicate attributes) and requests (related/unrelated hosts, ports, paths with and without query / percent-"
+            "encoding / params, filter matching or not); on both, the Host header, HTTP/2 :authority, server-connection "
+            "address, SNI and scheme are absent, equal to the destination or name a different related/unrelated host and "
+            "port (the oracle and the model always take the destination request.host / request.port), or a single (host, domain) / (request path, cookie path) pair from the exhaustive universe; "
             "distinct = distinct case; non-trivial = some request got a cookie attached, or a pair case.")
     budget = {"quick": 6000, "thorough": 120000}
     time_budget = {"quick": 20, "thorough": 420}
@@ -114,6 +117,48 @@ class Check(PropertyCheck):
             host = rng.pick(["sub." + host, host + ".evil.org", "x" + host, host.upper(), host + ".", host])
         return host, (r["port"] if rng.chance(0.8) else rng.pick(PORTS))
 
+    def _dress(self, rng, ev, evs):
+        """Attributes of the flow that must not matter: the property speaks of the host/port the request is sent to
+        (request.host / request.port) and its path (request.path).  Host header, HTTP/2 :authority, the address and
+        SNI of the server connection (upstream proxy) and the scheme are varied independently: absent, equal to the
+        destination, or naming a different related (a host that has cookies in the jar) or unrelated host / port."""
+        known = [e["host"] for e in evs if e["t"] == "resp"] or HOSTS
+
+        def other():
+            h = rng.pick(known) if rng.chance(0.7) else rng.pick(HOSTS)
+            if rng.chance(0.25): h = rng.pick(["www.", "sub."]) + h
+            return h
+        x = rng.random()
+        if x < 0.3: pass
+        elif x < 0.55: ev["hh"] = ev["host"] + (f":{ev['port']}" if rng.chance(0.3) else "")
+        else: ev["hh"] = other() + (f":{rng.pick(PORTS)}" if rng.chance(0.3) else "")
+        x = rng.random()
+        if x < 0.7: pass
+        elif x < 0.8: ev["auth"] = ev["host"]
+        else: ev["auth"] = other() + (f":{rng.pick(PORTS)}" if rng.chance(0.3) else "")
+        if rng.chance(0.3): ev["via"] = [other(), rng.pick(PORTS)]
+        if rng.chance(0.3): ev["sni"] = other()
+        if rng.chance(0.3): ev["scheme"] = "https"
+        return ev
+
+    @staticmethod
+    def _flow(ev, resp):
+        headers = []
+        if ev.get("hh") is not None: headers.append((b"host", ev["hh"].encode()))
+        headers.append((b"accept", b"*/*"))
+        auth = ev.get("auth")
+        req = tutils.treq(host=ev["host"], port=ev["port"], path=(ev.get("path", "/set")).encode(),
+                          method=ev.get("m", "GET").encode(), scheme=ev.get("scheme", "http").encode(),
+                          authority=(auth or "").encode(), http_version=b"HTTP/2.0" if auth else b"HTTP/1.1",
+                          headers=http.Headers(headers))
+        f = tflow.tflow(req=req, resp=resp)
+        if ev.get("via"):
+            f.server_conn.address = (ev["via"][0], ev["via"][1])
+        if ev.get("sni"):
+            f.server_conn.sni = ev["sni"]; f.client_conn.sni = ev["sni"]
+        assert f.request.host == ev["host"] and f.request.port == ev["port"]
+        return f
+
     def _history(self, rng):
         evs, ctr = [], [0]
         for _ in range(rng.randint(2, 40)):
@@ -136,6 +181,9 @@ class Check(PropertyCheck):
                 host, port = self._related(rng, evs)
                 evs.append({"t": "req", "m": "GET" if rng.chance(0.9) else "POST", "host": host, "port": port,
                             "path": rng.pick(RPATHS)})
+        if rng.chance(0.75):
+            for i, ev in enumerate(evs):
+                self._dress(rng, ev, evs[:i])
         return {"evs": evs}
 
     def generate(self, rng, tier):
@@ -159,6 +207,26 @@ class Check(PropertyCheck):
                         evs.append({"t": "req", "m": "GET", "host": h2, "port": 80, "path": rng.pick(RPATHS)})
                     evs.append({"t": "req", "m": "GET", "host": host, "port": 8080, "path": "/foo"})
                     yield {"evs": evs}
+        # directed: the flow claims (Host header / :authority / server address / SNI) to be another host than its destination
+        k = 0
+        for owner, dom in (("example.com", None), ("sub.example.com", ".example.com"), ("evil.org", None)):
+            attrs = [["Domain", dom]] if dom else []
+            for field in ("hh", "auth", "via", "sni"):
+                def claim(h, port=80):
+                    return {"hh": h, "auth": h, "via": [h, port], "sni": h}[field]
+                for other in HOSTS[:9]:
+                    k += 1
+                    if tier == "quick" and k % 2: continue
+                    yield {"evs": [   # learned honestly, then a request to `other` claiming to be the owner
+                        {"t": "resp", "host": owner, "port": 80, "cookies": [{"name": "a", "value": "v1", "attrs": attrs, "exp": 0}], field: claim(owner)},
+                        {"t": "req", "m": "GET", "host": other, "port": 80, "path": "/", field: claim(owner)},
+                        {"t": "req", "m": "GET", "host": owner, "port": 8080, "path": "/", field: claim(owner, 80) if field != "hh" else owner + ":80"},
+                        {"t": "req", "m": "GET", "host": owner, "port": 80, "path": "/", field: claim(other)}]}
+                    yield {"evs": [   # a response from `other` whose request claimed to be (a subdomain of) the owner
+                        {"t": "resp", "host": other, "port": 80, "cookies": [{"name": "a", "value": "v1", "attrs": [["Domain", "." + owner]], "exp": 0}], field: claim("www." + owner)},
+                        {"t": "resp", "host": other, "port": 80, "cookies": [{"name": "b", "value": "v2", "attrs": [], "exp": 0}], field: claim(owner)},
+                        {"t": "req", "m": "GET", "host": "www." + owner, "port": 80, "path": "/"},
+                        {"t": "req", "m": "GET", "host": owner, "port": 80, "path": "/"}]}
         while True:
             if rng.chance(0.04):
                 al = "ab.E:1/"
@@ -181,14 +249,14 @@ class Check(PropertyCheck):
             tctx.configure(sc, stickycookie="~m GET")
             for ev in case["evs"]:
                 if ev["t"] == "resp":
-                    f = tflow.tflow(req=tutils.treq(host=ev["host"], port=ev["port"], path=b"/set"), resp=True)
+                    f = self._flow(ev, True)
                     f.response.headers.pop("set-cookie", None)
                     for c in ev["cookies"]:
                         f.response.headers.add("Set-Cookie", c["name"] + "=" + c["value"] + "".join(f"; {k}={v}" for k, v in c["attrs"]))
                     sc.response(f)
                     out.append({"njar": len(sc.jar)})
                 else:
-                    f = tflow.tflow(req=tutils.treq(host=ev["host"], port=ev["port"], path=ev["path"].encode(), method=ev["m"].encode()))
+                    f = self._flow(ev, False)
                     f.request.headers.pop("cookie", None)
                     sc.request(f)
                     out.append({"cookie": f.request.headers.get("cookie")})
@@ -322,6 +390,13 @@ class Check(PropertyCheck):
         out = []
         sets = self._sets(case)
         stored = {v for _, _, _, cs in obs["jar"] for _, v in cs}
+        for ev in case["evs"]:
+            for fld, name in (("hh", "host-header"), ("auth", "authority")):
+                if ev.get(fld) is not None:
+                    out.append(f"{name}:" + ("same" if ev[fld].split(":")[0].lower() == ev["host"].lower() else "other-host"))
+            if ev.get("via"): out.append("server-address:other")
+            if ev.get("sni"): out.append("sni:set")
+            if ev.get("scheme") == "https": out.append("scheme:https")
         for ev, r in zip(case["evs"], obs["evs"]):
             if ev["t"] == "req":
                 out.append("req:attached" if r["cookie"] else ("req:filter-miss" if ev["m"] != "GET" else "req:nothing"))
@@ -339,6 +414,10 @@ class Check(PropertyCheck):
         evs = case["evs"]
         for i in range(len(evs)):
             yield {"evs": evs[:i] + evs[i + 1:]}
+        for i, ev in enumerate(evs):
+            for h in HOSTS[:9]:
+                yield {"evs": evs[:i] + [dict(ev, hh=h)] + evs[i + 1:]}
+                yield {"evs": evs[:i] + [dict(ev, auth=h)] + evs[i + 1:]}
         for i, ev in enumerate(evs):
             if ev["t"] == "req":
                 for h in HOSTS:
